@@ -124,6 +124,13 @@ package eval
 //@   inline 8 2
 
 //@ func (*ti/eval.IfUnless).Evaluation
+//@   requires i != nil && wfP(p)
+//@   # C10: if/unless is evaluated by one shared instance; a nested conditional must leave the
+//@   # narrowing state of the enclosing one as it found it
+//@   ensures[C10] i.originalTs == old(i.originalTs) && i.narrowTs == old(i.narrowTs) && i.ifNarrowTs == old(i.ifNarrowTs)
+//@   witness post:0.0#0 "c = true\nx = c ? 1 : nil\ny = c ? \"a\" : nil\nif x.nil?\n  if y.nil?\n    dbtp y\n  end\n  dbtp x\nelse\n  dbtp x\nend\n" expect "in.rb:::10:::NilClass"
+
+//@ func (*ti/eval.IfUnless).evaluate
 //@   requires wfP(p)
 //@   eosexit
 //@   inline 8 2
